@@ -20,3 +20,13 @@ package asthelper
 
 //@ func ArrayType
 //@   inline
+
+//@ func DataToArray
+//@   trusted builds the composite literal [...]byte{...} listing the given bytes; creates nodes only
+//@   assigns nothing
+//@ end
+
+//@ func DataToByteSlice
+//@   trusted builds []byte("...") from the given bytes; creates nodes only
+//@   assigns nothing
+//@ end
